@@ -10,6 +10,7 @@
    active = {broker:[[owner,ssid],..]} (subscription events the real replica reports active) and
    coalesced = number of merges into non-empty sender buckets so far, members = {broker:[peers in its member list]}.
      {"e":"linkdown"|"linkup"|"gc","b":..,"to":..}   gc = the router's garbage-collection callback for peer `to' on b
+     {"e":"restart","b":..}                          the broker object is closed and a new one started under the same name
    The constant GcAsCode selects the intended design (FALSE) or what the code does around garbage collection
    (TRUE, listed finding gc_peer_return): a schedule with a gc step that the intended design rejects is re-validated against the deviation, so that
    only behaviour the listed finding explains is attributed to it. *)
@@ -32,7 +33,7 @@ MembersOK(ev) == GcAsCode => \A b \in Brokers : ToSet(ev.members[b]) = members'[
 TrReset == IsEvent("reset") /\ loc' = [b \in Brokers |-> {}] /\ st' = [b \in Brokers |-> Nothing] /\ routes' = [b \in Brokers |-> {}]
               /\ bc' = [b \in Brokers |-> [n \in Brokers |-> Nothing]] /\ gs' = [b \in Brokers |-> [n \in Brokers |-> Nothing]]
               /\ live' = [b \in Brokers |-> [n \in Brokers |-> "none"]]
-              /\ up' = [b \in Brokers |-> [n \in Brokers |-> b # n]] /\ members' = [b \in Brokers |-> {}]
+              /\ up' = [b \in Brokers |-> [n \in Brokers |-> b # n]] /\ members' = [b \in Brokers |-> {}] /\ fresh' = {}
               /\ wire' = [b \in Brokers |-> [n \in Brokers |-> <<>>]] /\ now' = 1 /\ merged' = 0
 TrSub     == IsEvent("sub")      /\ ClientSub(Ev.b, Ev.s)   /\ ObsOK(Ev)
 TrUnsub   == IsEvent("unsub")    /\ ClientUnsub(Ev.b, Ev.s) /\ ObsOK(Ev)
@@ -53,8 +54,9 @@ TrProbe   == IsEvent("probe") /\ UNCHANGED gvars
                 /\ (Quiescent => /\ ToSet(Ev.fwd) = ForwardedTo(Ev.b, Ev.s)
                                  /\ ToSet(Ev.got) = { <<p, 1>> : p \in ReceivedBy(Ev.b, Ev.s) })
 
+TrRestart == IsEvent("restart") /\ Restart(Ev.b) /\ ObsOK(Ev) /\ MembersOK(Ev)
 TraceInit == GInit /\ l = 1 /\ MarkInit
-TraceNext == TrReset \/ TrSub \/ TrUnsub \/ TrPer \/ TrPick \/ TrDeliver \/ TrProbe \/ TrDown \/ TrUp \/ TrGC
+TraceNext == TrReset \/ TrSub \/ TrUnsub \/ TrPer \/ TrPick \/ TrDeliver \/ TrProbe \/ TrDown \/ TrUp \/ TrGC \/ TrRestart
 MarkC == Mark(l)
 (* under the intended design every reached model state satisfies the property: conforming to it is satisfying C05 *)
 TraceInv == GcAsCode \/ (RoutingAtQuiescence /\ ForwardingAtQuiescence)
